@@ -149,12 +149,12 @@ pub fn determinism(ctx: &Ctx, rep: &mut Report) {
     // the seeds with the longest key searches are where retry budgets, fallbacks and re-keying
     // logic would act: their complete single-bit neighbourhoods are generated here (the
     // separate bitflips leg covers randomly chosen base seeds)
-    for s in slow512.iter().take(ctx.sz(1, 6)) {
+    for s in slow512.iter().take(ctx.sz(1, 12)) {
         bitflips_v::<F512>(*s, rep);
         rep.count("bitflip_neighbourhoods_of_slowest_seeds", 1);
     }
     if ctx.thorough() {
-        for s in slow1024.iter().take(2) {
+        for s in slow1024.iter().take(6) {
             bitflips_v::<F1024>(*s, rep);
             rep.count("bitflip_neighbourhoods_of_slowest_seeds", 1);
         }
